@@ -14,8 +14,10 @@ is the stated assumption of this property. The state records:
 * `pis`   — the raw public inputs the circuit binds (`constrain_as_public_input`);
 * `piTypes` — `public_input_types` (`CircuitValue::get_type` at each `Publish`);
 
-When the witness generator of a gadget panics on a known witness (only the byte decomposition
-of an out-of-range native value does), synthesis stops with `Err.panic`.
+Every value in memory also carries a flag `known`: whether the prover-side value is known
+during this pass (constants always are; with a known witness everything is; in the
+witness-free pass gadget outputs are not, except the coordinates of a known point). Two operations look at known values and return an error value:
+`IntoBytes` on a native value that does not fit, `FromBytes(JubjubPoint)` on invalid bytes.
 
 `w = none` is the witness-free compilation pass (`Value::unknown()`): shapes only.
 Import-free.
@@ -43,17 +45,16 @@ def CVal.type : CVal → IrType
   | .point _ _ => .point
 
 structure InState where
-  mem : List (String × CVal) := []
+  mem : List (String × (CVal × Bool)) := []
   pis : List Nat := []
   piTypes : List IrType := []
   sat : Bool := true
 
-/-- Result of one gadget call: outputs, whether its constraints hold, whether its witness
-generator panics. -/
+/-- Result of one gadget call: outputs and whether its constraints hold for the honest
+assignment. -/
 structure GOut where
   outs : List CVal
   sat : Bool := true
-  panics : Bool := false
 
 def gok (v : CVal) : Except Err GOut := .ok { outs := [v] }
 
@@ -134,7 +135,7 @@ def GOut.andThen (g : GOut) (f : CVal → Except Err GOut) : Except Err GOut :=
   match g.outs with
   | [v] => match f v with
     | .error e => .error e
-    | .ok g' => .ok { outs := g'.outs, sat := g.sat && g'.sat, panics := g.panics || g'.panics }
+    | .ok g' => .ok { outs := g'.outs, sat := g.sat && g'.sat }
   | _ => .error (.panic "gadget arity")
 
 /-- The `try_fold` of `inner_product_incircuit` (Native / BigUint branch). -/
@@ -191,14 +192,16 @@ def affineIn (p : CVal) : Except Err GOut :=
   | .point u v => .ok { outs := [.native u, .native v] }
   | _ => .error (.unsupported .affine [p.type])
 
-/-- `into_bytes.rs: into_bytes_incircuit`. Native: the byte decomposition is range-checked
-(its witness generator panics when the value does not fit). BigUint: all limb bytes beyond `n`
-are constrained to zero, the output is padded. Point: 32 bytes of `v`, sign of `u` on top. -/
-def intoBytesIn (x : CVal) (n : Nat) : Except Err GOut :=
+/-- `into_bytes.rs: into_bytes_incircuit`. Native: the byte decomposition is range-checked; a
+*known* value that does not fit is reported as the off-circuit error. BigUint: all limb bytes
+beyond `n` are constrained to zero, the output is padded. Point: 32 bytes of `v`, sign of `u`
+on top. -/
+def intoBytesIn (known : Bool) (x : CVal) (n : Nat) : Except Err GOut :=
   match x with
   | .native a =>
     if n > divCeil FBits 8 then .error (.unsupported (.intoBytes n) [x.type])
-    else .ok { outs := [.bytes (natToLeBytes n a)], sat := a < 2 ^ (8 * n), panics := ¬ a < 2 ^ (8 * n) }
+    else if known ∧ ¬ a < 2 ^ (8 * n) then .error .cannotConvert
+    else .ok { outs := [.bytes (natToLeBytes n a)], sat := a < 2 ^ (8 * n) }
   | .big s a =>
     match requireNormalized s s with
     | .error e => .error e
@@ -208,8 +211,8 @@ def intoBytesIn (x : CVal) (n : Nat) : Except Err GOut :=
     else .error (.unsupported (.intoBytes n) [x.type])
   | _ => .error (.unsupported (.intoBytes n) [x.type])
 
-/-- `from_bytes.rs: from_bytes_incircuit`; `known` = the witness is known (the Jubjub point is
-decoded from the byte values to be witnessed). -/
+/-- `from_bytes.rs: from_bytes_incircuit`; the Jubjub point is decoded from the byte values
+when they are known, witnessed, re-encoded in-circuit and compared with the input bytes. -/
 def fromBytesIn (known : Bool) (t : IrType) (x : CVal) : Except Err GOut :=
   match x with
   | .bytes bs =>
@@ -274,11 +277,11 @@ def publishIn (x : CVal) : Except Err (List Nat) :=
   | .scalar n k => .ok (scalarChunks (n + 1) n k)
 
 /-- Name resolution of `incircuit.rs: process_instruction`. -/
-def resolveIn (mem : List (String × CVal)) (name : String) : Except Err CVal :=
+def resolveIn (mem : List (String × (CVal × Bool))) (name : String) : Except Err (CVal × Bool) :=
   match lookup name mem with
   | some v => .ok v
   | none => match parseConst name with
-    | some v => .ok (constCVal v)
+    | some v => .ok (constCVal v, true)
     | none => .error (.notFound name)
 
 /-- The value loaded for an output name of `Load(t)`. -/
@@ -298,7 +301,7 @@ def publishAll : List CVal → Except Err (List Nat × List IrType)
 
 /-- The operation dispatch of the in-circuit `process_instruction`: gadget result plus newly
 bound public inputs and their types. -/
-def opIn (H : Hashes) (w : Option Witness) (i : Instr) (inps : List CVal) :
+def opIn (H : Hashes) (w : Option Witness) (known : Bool) (i : Instr) (inps : List CVal) :
     Except Err (GOut × List Nat × List IrType) :=
   let pure (g : Except Err GOut) : Except Err (GOut × List Nat × List IrType) := g.map (fun g => (g, [], []))
   match i.op with
@@ -354,11 +357,11 @@ def opIn (H : Hashes) (w : Option Witness) (i : Instr) (inps : List CVal) :
     | _ => .error (.panic "index out of bounds")
   | .intoBytes n =>
     match inps with
-    | a :: _ => pure (intoBytesIn a n)
+    | a :: _ => pure (intoBytesIn known a n)
     | _ => .error (.panic "index out of bounds")
   | .fromBytes t =>
     match inps with
-    | a :: _ => pure (fromBytesIn w.isSome t a)
+    | a :: _ => pure (fromBytesIn known t a)
     | _ => .error (.panic "index out of bounds")
   | .poseidon =>
     match mapE asNativeIn inps with
@@ -378,13 +381,16 @@ def stepIn (H : Hashes) (w : Option Witness) (st : InState) (i : Instr) : Except
   match mapE (resolveIn st.mem) i.ins with
   | .error e => .error e
   | .ok inps =>
-    match opIn H w i inps with
+    let known : Bool := inps.all (·.2)
+    -- with an unknown witness, a cell assigned by a gadget carries no value; only
+    -- `AffineCoordinates` hands out cells of its input
+    let knownOut : Bool := w.isSome || (i.op == .affine && known)
+    match opIn H w known i (inps.map (·.1)) with
     | .error e => .error e
     | .ok (g, fs, ts) =>
-      match insertMany st.mem i.outs g.outs with
+      match insertMany st.mem i.outs (g.outs.map (fun v => (v, knownOut))) with
       | .error e => .error e
       | .ok mem =>
-        if g.panics && w.isSome then .error (.panic "witness generation") else
         .ok { mem := mem, pis := st.pis ++ fs, piTypes := st.piTypes ++ ts,
               sat := st.sat && g.sat }
 
